@@ -18,6 +18,26 @@ def config(method, strip=True, cache=True, doctype=None, drop_xml_decl=True):
             'drop_xml_decl': bool(drop_xml_decl)}
 
 
+def valid_config(case):
+    """does a canonical case name a method / doctype option the serializers accept"""
+    if case.get('method') not in METHODS:
+        return False
+    dt = case.get('doctype')
+    if dt is not None:
+        if not isinstance(dt, list) or not dt or dt[0] not in ('name', 'tuple'):
+            return False
+        if dt[0] == 'name' and not (len(dt) == 2 and isinstance(dt[1], str)):
+            return False
+        if dt[0] == 'tuple' and not (len(dt) == 4 and isinstance(dt[1], str) and dt[1]
+                                     and all(x is None or isinstance(x, str) for x in dt[2:])):
+            return False
+        if dt[0] == 'name':
+            from genshi.output import DocType
+            if DocType.get(dt[1]) is None:
+                return False
+    return True
+
+
 def serializer(cfg):
     from genshi import output
     kw = {'strip_whitespace': cfg['strip'], 'cache': cfg['cache']}
